@@ -128,7 +128,8 @@ Definition predict (c : case) : obs :=
   let wl := map (committed w) all_accts in
   let fb := failed (thr b 0%nat) in
   let fw := failed (thr w 0%nat) in
-  let heq := zlist_eqb bl wl && Bool.eqb fb fw in
+  let same_written := forallb (fun a => Bool.eqb (existsb (Nat.eqb a) (written b)) (existsb (Nat.eqb a) (written w))) all_accts in
+  let heq := zlist_eqb bl wl && Bool.eqb fb fw && same_written in
   mkObs heq heq
         (Bool.eqb fb fw && (c_gas_base c =? c_gas_with c) && (fb || evs_eqb (log (thr b 0%nat)) (log (thr w 0%nat))))
         (negb fb) (negb fw) bl wl.
